@@ -69,7 +69,15 @@ def programs(chk):
 
 
 def run(chk):
-    progs = programs(chk)
+    run_programs(chk, programs(chk), "sem")
+    chk.cov["rule"] = ("seeded programs of tools/capygen.py (integers i16/i32/u8/u32/i64 with wrapping arithmetic, "
+                       "shifts, casts, bool with short-circuit operators, arrays, nested structs, functions, "
+                       "if / while / loop, labeled blocks with values, break / continue with and without labels, "
+                       "early return, defer, copy semantics of aggregates; some end in an out-of-range index); "
+                       "each one executed and validated against the TLA+ interpreter")
+
+
+def run_programs(chk, progs, tag):
     R = capygen.Render
     pre = c08.prelude() + capygen.PRELUDE_TYPES
     plain = [k for k, (p, f) in enumerate(progs) if not f]
@@ -88,7 +96,7 @@ def run(chk):
     while todo:
         jobs = [{"id": "b%d" % bi, "files": {"main.capy": batch_src(ks)}, "run": True, "timeout_ms": 30000}
                 for bi, ks in enumerate(todo)]
-        res = common.run_batch(jobs, chk.wd, "sem_r%d" % rnd)
+        res = common.run_batch(jobs, chk.wd, "%s_r%d" % (tag, rnd))
         nxt = []
         for ks, r in zip(todo, res):
             ok = r.get("run") and r["run"].get("status") == 0 and not r["has_errors"] and not r.get("panic")
@@ -126,7 +134,7 @@ def run(chk):
     for k in faulting:
         src = pre + texts[k] + "\nmain :: () -> i32 { p%d_main() }\n" % k
         jobs.append({"id": "f%d" % k, "files": {"main.capy": src}, "run": True, "timeout_ms": 30000})
-    for k, r in zip(faulting, common.run_batch(jobs, chk.wd, "sem_fault") if jobs else []):
+    for k, r in zip(faulting, common.run_batch(jobs, chk.wd, tag + "_fault") if jobs else []):
         if r["has_errors"]:
             obs[k] = {"acc": False, "out": [], "status": -3, "end": "rejected: " + ",".join(
                 sorted({d["kind"] for d in r["diags"] if d["sev"] == "error"}))}
@@ -141,7 +149,7 @@ def run(chk):
     for k, (p, f) in enumerate(progs):
         recs.append(dict(obs[k], p=capygen.strip(p)))
         idx.append(k)
-    bad = common.tlc_validate_sharded(chk, "TraceSem", "TraceSem.cfg", recs, "sem", shards=12, timeout=3000, per_shard=10)
+    bad = common.tlc_validate_sharded(chk, "TraceSem", "TraceSem.cfg", recs, tag, shards=12, timeout=3000, per_shard=10)
     for (n, b) in bad:
         k = idx[n]
         o = obs[k]
@@ -158,11 +166,6 @@ def run(chk):
     chk.cov["evaluations"] = len(progs)
     chk.cov["distinct_nontrivial"] = len({json.dumps(r["p"], sort_keys=True) for r in recs})
     chk.cov["faulting_programs"] = len(faulting)
-    chk.cov["rule"] = ("seeded programs of tools/capygen.py (integers i16/i32/u8/u32/i64 with wrapping arithmetic, "
-                       "shifts, casts, bool with short-circuit operators, arrays, nested structs, functions, "
-                       "if / while / loop, labeled blocks with values, break / continue with and without labels, "
-                       "early return, defer, copy semantics of aggregates; some end in an out-of-range index); "
-                       "each one executed and validated against the TLA+ interpreter")
 
 
 def replay(path):
